@@ -69,7 +69,7 @@ def build(cellname, patname, copies, rnd, noise=0.0, decoys=0, mirror_decoys=0, 
           pattern_override=None, bent=0):
     """Returns dict(structure=Atoms, pattern=Atoms, planted=[index tuples in pattern order], poses=[(rot, trans)])."""
     from mofun import Atoms
-    cell = CELLS[cellname]
+    cell = CELLS[cellname] if cellname in CELLS else SMALL_CELLS[cellname]
     els, coords = pattern_override or PATTERNS[patname]
     coords = np.array(coords, dtype=float)
     diam = max([np.linalg.norm(a - b) for a in coords for b in coords] + [0.0])
@@ -150,6 +150,8 @@ def best_rigid_fit(P, Q):
 # ------------------------------------------------------------------------------------------------ stress generators
 CELLS['rhombo'] = np.array([[20., 0, 0], [10., 17.3205, 0], [10., 5.7735, 16.3299]])          # 60 degree angles
 CELLS['rhombo-'] = np.array([[20., 0, 0], [-8., 18.0, 0], [-7., -6.0, 17.0]])                  # all tilts negative
+# cells only a little wider than a long pattern (the pattern spans more than half a cell edge); used with a single copy
+SMALL_CELLS = {'small': np.array([[9.0, 0, 0], [0, 9.5, 0], [0, 0, 10.0]]), 'small-tri': np.array([[9.5, 0, 0], [2.0, 9.5, 0], [1.5, 2.0, 10.0]])}
 PATTERNS['long5'] = ('CNOFS', [[0., 0, 0], [1.4, 0.5, 0.1], [2.9, -0.4, 0.6], [4.5, 0.3, -0.5], [6.2, 0.0, 0.2]])
 PATTERNS['pair-y'] = ('CN', [[0., 0, 0], [0., 1.2, 0]])
 PATTERNS['collinear3-y'] = ('CNO', [[0., 0, 0], [0, 1.1, 0], [0, 2.5, 0]])
@@ -172,11 +174,11 @@ def rot_to(u, v):
     return R.from_rotvec(c / s * np.arctan2(s, d))
 
 
-def build_through_faces(cellname, patname, rnd, depth=0.05, decoys=2, spin=True, anchor=0):
+def build_through_faces(cellname, patname, rnd, depth=0.05, decoys=2, spin=True, anchor=0, only_face=None):
     """One copy through each of the six cell faces: the pattern's longest axis points along the outward face normal, its first axis atom sits
     `depth` inside the face, so the copy sticks out by (almost) its full length."""
     from mofun import Atoms
-    cell = CELLS[cellname]
+    cell = CELLS[cellname] if cellname in CELLS else SMALL_CELLS[cellname]
     els, coords = PATTERNS[patname]
     coords = np.array(coords, dtype=float)
     n = len(coords)
@@ -197,6 +199,8 @@ def build_through_faces(cellname, patname, rnd, depth=0.05, decoys=2, spin=True,
         faces.append((o, e1, e2, outward))
     elements, positions, planted, poses = [], [], [], []
     for f, (o, e1, e2, outward) in enumerate(faces):
+        if only_face is not None and f != only_face:
+            continue
         u, v = uv[f]
         anchor = o + u * e1 + v * e2 - depth * outward            # just inside
         rot = rot_to(axis, outward)
